@@ -79,6 +79,7 @@ struct secret {
         uint8_t v[16];
         char name[16];
 };
+static int derive_ghash_value(const struct item *it, struct secret *s, const uint8_t ej0[16]);
 static int
 derive_secrets(const struct item *it, struct secret *s)
 {
@@ -105,6 +106,8 @@ derive_secrets(const struct item *it, struct secret *s)
                         j0[15] = 1;
                         ref_aes_enc(&ak, j0, s[n].v);
                         snprintf(s[n++].name, sizeof s[0].name, "EJ0");
+                        if (it->cipher == IMB_CIPHER_GCM)
+                                n += derive_ghash_value(it, &s[n], s[n - 1].v);
                 }
         } else if (it->cipher == IMB_CIPHER_CCM && it->iv_len >= 7 && it->iv_len <= 13) {
                 /* S0 = E_K(A0), the mask of the CBC-MAC value (tag = T xor S0) */
@@ -126,6 +129,7 @@ derive_secrets(const struct item *it, struct secret *s)
                         j0[15] = 1;
                         ref_sm4_enc(it->k.ckey, j0, s[n].v);
                         snprintf(s[n++].name, sizeof s[0].name, "EJ0");
+                        n += derive_ghash_value(it, &s[n], s[n - 1].v);
                 }
         } else if (it->cipher == IMB_CIPHER_CHACHA20_POLY1305 || it->cipher == IMB_CIPHER_CHACHA20_POLY1305_SGL) {
                 uint8_t zero[32] = { 0 }, pk[32];
@@ -143,6 +147,31 @@ derive_secrets(const struct item *it, struct secret *s)
                 snprintf(s[n++].name, sizeof s[0].name, "ENDPAD");
         }
         return n;
+}
+/* S = GHASH_H(AAD, C, lengths) = full tag xor E_K(J0): not public (only tag_len bytes of S xor E_K(J0) are), and together
+ * with the public AAD and ciphertext it determines H */
+static int
+derive_ghash_value(const struct item *it, struct secret *s, const uint8_t ej0[16])
+{
+        static uint8_t tmp[70000];
+        uint8_t full[16];
+        const int dec = it->dir == IMB_DIR_DECRYPT;
+        if (it->iv_len != 12 || it->c_len > sizeof tmp || !it->src_orig)
+                return 0;
+        if (it->cipher == IMB_CIPHER_SM4_GCM)
+                ref_gcm(ref_sm4_enc, it->k.ckey, dec, it->iv, 12, it->aad, it->aad_len, it->src_orig + it->c_off, tmp, it->c_len, full, 16);
+        else if (it->cipher == IMB_CIPHER_GCM) {
+                struct ref_aes_key ak;
+                memset(&ak, 0, sizeof ak);
+                ak.keylen = (int) it->keylen;
+                memcpy(ak.key, it->k.ckey, it->keylen);
+                ref_gcm(ref_aes_enc, &ak, dec, it->iv, 12, it->aad, it->aad_len, it->src_orig + it->c_off, tmp, it->c_len, full, 16);
+        } else
+                return 0;
+        for (int i = 0; i < 16; i++)
+                s->v[i] = full[i] ^ ej0[i];
+        snprintf(s->name, sizeof s->name, "GHASH-S");
+        return 1;
 }
 static const uint8_t *
 find8(const uint8_t *hay, size_t n, const uint8_t *v)
@@ -303,7 +332,7 @@ run_schedule(struct mmgr **pmm, int cfg, const struct suite *cs, const struct su
                 /* GHASH-type MACs: message/AAD blocks that are a single bit at a byte boundary (x^(8k) in GF(2^128)): the
                  * partial products message x hash-key are then byte-shifted copies of the key, so product residue shows as
                  * pattern bytes too (derived key material, not only the raw key) */
-                if (cls != 2 && ((seed >> 11) & 1) &&
+                if (cls != 2 && cls != 3 && ((seed >> 11) & 1) &&
                     (I[i]->hash == IMB_AUTH_GHASH || I[i]->hash == IMB_AUTH_AES_GMAC || I[i]->hash == IMB_AUTH_AES_GMAC_128 ||
                      I[i]->hash == IMB_AUTH_AES_GMAC_192 || I[i]->hash == IMB_AUTH_AES_GMAC_256 || I[i]->hash == IMB_AUTH_SM4_GCM)) {
                         struct item *it = I[i];
